@@ -63,6 +63,11 @@ end Rl4co.Tspfam
 namespace Rl4co.Tsp
 open Rl4co.Tspfam
 
+/-- obligation on the extracted size expression of `_reset`: for EVERY batch shape (flat `[B]`, `[B1, B2]`, …)
+the mask gets one entry per city.  False for `size(1)` (then the width is `B2` for a `[B1, B2]` batch). -/
+theorem resetWidth_eq (bs : List Nat) (i : Inst) : resetWidth bs i = i.n := by
+  simp [resetWidth, numLocOf, Params.tspResetNumLocFromEnd]
+
 theorem firstFlag_eq (rows : List State) : firstFlag rows = ((rows.all (fun s => s.i != 0)) == false) := by
   simp only [firstFlag, Params.tspFirstStepCmp, Cmp.evalNat]
   cases rows.all (fun s => s.i != 0) <;> simp
